@@ -139,7 +139,7 @@ Definition render_inv (c : cfg) (st0 : list (str * (N * N))) (s : st) : Prop :=
   Inv c s /\ fail_next s = false /\ store s = st0 /\ consistent s.
 
 Lemma cached_load_store c s name ns g a :
-  store (snd (cached_load c s name ns g a)) = store s.
+  store (snd (cached_load c s name ns g a true)) = store s.
 Proof.
   unfold cached_load.
   destruct (lru_get (cache s) (cache_key c name ns)) as [[t ch1]|].
@@ -155,7 +155,7 @@ Proof.
 Qed.
 
 Lemma cached_load_fail_next c s name ns g a :
-  fail_next (snd (cached_load c s name ns g a)) = false.
+  fail_next (snd (cached_load c s name ns g a true)) = false.
 Proof.
   unfold cached_load. pose proof (uncached_load_fn c s name ns g a) as Hfn.
   destruct (lru_get (cache s) (cache_key c name ns)) as [[t ch1]|].
@@ -174,7 +174,7 @@ Proof.
 Qed.
 
 Lemma cached_load_consistent c s name ns g a :
-  consistent s -> consistent (snd (cached_load c s name ns g a)).
+  consistent s -> consistent (snd (cached_load c s name ns g a true)).
 Proof.
   intros Hc ck t0. pose proof (cached_load_store c s name ns g a) as Hst.
   unfold consistent in *. rewrite Hst. clear Hst. unfold cached_load.
@@ -201,7 +201,7 @@ Qed.
     answers, whatever the cache holds. *)
 Lemma cached_load_truth c s name ns g a :
   wf_cfg c -> Inv c s -> wf_call c ns -> fail_next s = false -> consistent s ->
-  fst (cached_load c s name ns g a) = truth c s name ns g.
+  fst (cached_load c s name ns g a true) = truth c s name ns g.
 Proof.
   intros Hc HI Hw Hf Hcons. unfold cached_load.
   pose proof (uncached_load_obs c s name ns g a) as Hu.
@@ -224,17 +224,17 @@ Lemma load_seg_transparent c st0 name ns g a :
 Proof.
   intros Hc Hw. split.
   - intros p s (HI & Hf & Hs & Hcons). unfold load_seg.
-    pose proof (cached_load_inv c s name ns g a Hc HI Hw) as H1.
+    pose proof (cached_load_inv c s name ns g a true Hc HI Hw) as H1.
     pose proof (cached_load_fail_next c s name ns g a) as H2.
     pose proof (cached_load_store c s name ns g a) as H3.
     pose proof (cached_load_consistent c s name ns g a Hcons) as H4.
-    destruct (cached_load c s name ns g a) as [o s']. simpl in *.
+    destruct (cached_load c s name ns g a true) as [o s']. simpl in *.
     split; [exact H1|]. split; [exact H2|]. split; [congruence|exact H4].
   - intros p s1 s2 (HI1 & Hf1 & Hs1 & Hc1) (HI2 & Hf2 & Hs2 & Hc2). unfold load_seg.
     pose proof (cached_load_truth c s1 name ns g a Hc HI1 Hw Hf1 Hc1) as E1.
     pose proof (cached_load_truth c s2 name ns g a Hc HI2 Hw Hf2 Hc2) as E2.
-    destruct (cached_load c s1 name ns g a) as [o1 s1'].
-    destruct (cached_load c s2 name ns g a) as [o2 s2']. simpl in *. rewrite E1, E2.
+    destruct (cached_load c s1 name ns g a true) as [o1 s1'].
+    destruct (cached_load c s2 name ns g a true) as [o2 s2']. simpl in *. rewrite E1, E2.
     unfold truth. rewrite Hs1, Hs2. reflexivity.
 Qed.
 
